@@ -58,7 +58,7 @@ inductive PatchKind | merge | json | jq
 inductive Edit
   | set (f : Fld) (v : V)       -- merge `{f: v}`, JSON-patch `add`, jq `.f = v`
   | del (f : Fld)               -- merge `{f: null}`, jq `del(.f)`   (absent field: no error)
-  | replace (f : Fld) (v : V)   -- JSON-patch `replace` (absent field: error)
+  | replace (f : Fld) (v : V)   -- JSON-patch `replace` (the library version in use adds an absent member)
   | remove (f : Fld)            -- JSON-patch `remove`  (absent field: error)
   deriving DecidableEq, Repr
 
@@ -71,7 +71,7 @@ abbrev PatchFn := PatchKind → Body → Obj → Option Obj
 def applyEdit : Edit → Obj → Option Obj
   | .set f v, o => some (aset o f v)
   | .del f, o => some (aerase o f)
-  | .replace f v, o => if (aget o f).isSome then some (aset o f v) else none
+  | .replace f v, o => some (aset o f v)   -- evanphx/json-patch v4: `replace` of a missing member adds it
   | .remove f, o => if (aget o f).isSome then some (aerase o f) else none
 
 def applyBody : Body → Obj → Option Obj
@@ -192,14 +192,23 @@ def execCreate (ign upd : Bool) (src : ObjSrc) (st : St) : St × Res :=
             | .error _ => (st3, .err)
         else (st1, .err)
 
-/-- `executeDeleteOperation` (the foreground wait loop only reads; not modelled). -/
-def execDelete (k : Key) (gvr : Bool) (sub : Sub) (st : St) : St × Res :=
+/-- `executeDeleteOperation`. After a successful foreground delete the code polls `Get` until
+NotFound; on the fake tracker the object is gone at once, so exactly one poll is issued (a real API
+server may need more polls: the wait loop itself is not modelled, it only reads). -/
+def execDelete (prop : Propagation) (k : Key) (gvr : Bool) (sub : Sub) (st : St) : St × Res :=
   if !gvr then (st, .err)
   else
     let st1 := st.call .delete k sub
     match apiDelete st.cluster k with
     | .error e => if e == .notFound then (st1, .ok) else (st1, .err)
-    | .ok c' => ({ st1 with cluster := c' }, .ok)
+    | .ok c' =>
+      let st2 : St := { st1 with cluster := c' }
+      if prop != .foreground then (st2, .ok)
+      else
+        let st3 := st2.call .get k 0
+        match apiGet st3.cluster k with
+        | .error e => if e == .notFound then (st3, .ok) else (st3, .err)
+        | .ok _ => (st3, .err)          -- still there after the wait: timeout error (not reachable here)
 
 /-- `executePatchOperation` (merge / JSON patch through the `Patch` API call). -/
 def execPatch (pf : PatchFn) (kind : PatchKind) (k : Key) (gvr : Bool) (sub : Sub) (im : Bool)
@@ -237,7 +246,7 @@ def execFilter (pf : PatchFn) (k : Key) (gvr : Bool) (sub : Sub) (im : Bool)
 def execOne (pf : PatchFn) (op : Op) (st : St) : St × Res :=
   match op with
   | .create ign upd src => execCreate ign upd src st
-  | .delete _ k gvr sub => execDelete k gvr sub st
+  | .delete p k gvr sub => execDelete p k gvr sub st
   | .patch kind k gvr sub im _ body =>
     if kind = .jq then execFilter pf k gvr sub im body st
     else execPatch pf kind k gvr sub im body st
@@ -270,6 +279,20 @@ structure Doc where
   /-- the object/patch is written inline (as opposed to: as a string holding a manifest). -/
   inline : Bool
   deriving DecidableEq, Repr
+
+/-- A document as the hook wrote it: what the typed decoders keep of it, and whether it carries keys
+outside the documented set (`additionalProperties: false` in the schema). -/
+structure RawDoc where
+  doc : Doc
+  extraKeys : Bool
+  deriving DecidableEq, Repr
+
+/-- Validity as documented by the schema. -/
+def RawDoc.documentedValid (r : RawDoc) : Bool := r.doc.valid && !r.extraKeys
+
+/-- Both decoders decode into the typed `OperationSpec` (no `DisallowUnknownFields` /
+`KnownFields`): unknown keys are dropped before the validator sees the document. -/
+def decodeRaw (r : RawDoc) : Doc := r.doc
 
 /-- The number representation a decoder leaves in an inline value. `normalise` is the repair
 (`helpers.go`: the YAML-decoded values are passed through JSON). -/
@@ -357,7 +380,10 @@ def calls (pf : PatchFn) : Op → Cluster → List Action
         if ign then [⟨.create, k, 0⟩]
         else if upd then [⟨.create, k, 0⟩, ⟨.get, k, 0⟩, ⟨.update, k, 0⟩]
         else [⟨.create, k, 0⟩]
-  | .delete _ k gvr sub, _ => if !gvr then [] else [⟨.delete, k, sub⟩]
+  | .delete p k gvr sub, c =>
+    if !gvr then []
+    else if p = .foreground && (aget c k).isSome then [⟨.delete, k, sub⟩, ⟨.get, k, 0⟩]   -- one wait poll
+    else [⟨.delete, k, sub⟩]
   | .patch kind k gvr sub _ _ body, c =>
     if kind ≠ .jq && body.isNone then []
     else if !gvr then []
